@@ -36,27 +36,29 @@ theorem C26_empty_allows_nothing (nfc : Bytes → Bytes) (c : Cfg) (path : Bytes
       · simp [h]
 
 /-- A request either fails before anything is done, or passed validation and is dispatched. -/
-theorem runOp_cases (nfc : Bytes → Bytes) (fu : Nat) (c : Cfg) (fs : FS) (op : Op) (path : Bytes) :
-    (∃ e, runOp nfc fu c fs op path = failR fs e) ∨
-    (validatePath nfc c path = .ok ∧ runOp nfc fu c fs op path = dispatch nfc fu c fs op path) := by
+theorem runOp_cases (x : Ctx) (nfc : Bytes → Bytes) (fu : Nat) (c : Cfg) (fs : FS) (op : Op) (path : Bytes) :
+    (∃ e, runOp x nfc fu c fs op path = failR fs e) ∨
+    (validatePath nfc c path = .ok ∧ runOp x nfc fu c fs op path = dispatch x nfc fu c fs op path) := by
   unfold runOp
   split
   · exact Or.inl ⟨_, rfl⟩
   · split
     · exact Or.inl ⟨_, rfl⟩
-    · cases hv : validatePath nfc c path with
-      | ok => exact Or.inr ⟨rfl, rfl⟩
-      | dangerous => exact Or.inl ⟨_, rfl⟩
-      | notAbs => exact Or.inl ⟨_, rfl⟩
-      | traversal => exact Or.inl ⟨_, rfl⟩
-      | emptyList => exact Or.inl ⟨_, rfl⟩
-      | notAllowed => exact Or.inl ⟨_, rfl⟩
+    · split
+      · exact Or.inl ⟨_, rfl⟩
+      · cases hv : validatePath nfc c path with
+        | ok => exact Or.inr ⟨rfl, rfl⟩
+        | dangerous => exact Or.inl ⟨_, rfl⟩
+        | notAbs => exact Or.inl ⟨_, rfl⟩
+        | traversal => exact Or.inl ⟨_, rfl⟩
+        | emptyList => exact Or.inl ⟨_, rfl⟩
+        | notAllowed => exact Or.inl ⟨_, rfl⟩
 
 /-- … and therefore no operation touches anything or changes the filesystem. -/
-theorem C26_empty_touches_nothing (nfc : Bytes → Bytes) (fu : Nat) (c : Cfg) (fs : FS) (op : Op)
+theorem C26_empty_touches_nothing (x : Ctx) (nfc : Bytes → Bytes) (fu : Nat) (c : Cfg) (fs : FS) (op : Op)
     (path : Bytes) (h : c.allowed = []) :
-    (runOp nfc fu c fs op path).touched = [] ∧ (runOp nfc fu c fs op path).fs = fs := by
-  rcases runOp_cases nfc fu c fs op path with ⟨e, he⟩ | ⟨hv, _⟩
+    (runOp x nfc fu c fs op path).touched = [] ∧ (runOp x nfc fu c fs op path).fs = fs := by
+  rcases runOp_cases x nfc fu c fs op path with ⟨e, he⟩ | ⟨hv, _⟩
   · rw [he]; exact ⟨rfl, rfl⟩
   · exact absurd hv (C26_empty_allows_nothing nfc c path h)
 
@@ -114,8 +116,8 @@ theorem C26_glob_ancestor (nfc : Bytes → Bytes) (path pat : Bytes)
 def physAllowed (c : Cfg) (q : Path) : Prop := validatePath (fun b => b) c (strOfPath q) = .ok
 
 def C26_statement : Prop :=
-  ∀ (nfc : Bytes → Bytes) (fu : Nat) (c : Cfg) (fs : FS) (op : Op) (path : Bytes),
-    ∀ q ∈ (runOp nfc fu c fs op path).touched, physAllowed c q
+  ∀ (x : Ctx) (nfc : Bytes → Bytes) (fu : Nat) (c : Cfg) (fs : FS) (op : Op) (path : Bytes),
+    ∀ q ∈ (runOp x nfc fu c fs op path).touched, physAllowed c q
 
 /-- names: d = 356, l = 364, s = 371, k = 363 (`encName` of one-letter names) -/
 def wFS : FS :=
@@ -125,11 +127,13 @@ def wFS : FS :=
 def wCfg : Cfg := { enabled := true, allowed := [[0x2f, 0x64]] }
 /-- "/d/l/k": lexically below /d; l -> ../s, so the kernel opens /s/k -/
 def wPath : Bytes := [0x2f, 0x64, 0x2f, 0x6c, 0x2f, 0x6b]
+/-- no password, no declared size; content sizes irrelevant (no size limit configured) -/
+def wCtx : Ctx := { pwOK := fun _ _ => false, password := [], declSize := -1, sizeOf := fun _ => 0, trunc := fun c _ => c }
 
 set_option maxRecDepth 20000 in
 theorem C26_refuted : ¬ C26_statement := by
   intro h
-  have h1 := h (fun b => b) 40 wCfg wFS .download wPath [371, 363] (by decide)
+  have h1 := h wCtx (fun b => b) 40 wCfg wFS .download wPath [371, 363] (by decide)
   revert h1
   unfold physAllowed
   decide
@@ -156,18 +160,18 @@ theorem aliases_ok {fs : FS} {p q : Path} (h : q ∈ aliases fs p) : touchedOK f
 /-- For a request whose path is already clean, has no ".." and no trailing slash, and none of
     whose components is a symbolic link, download / list / stat / chmod / non-recursive delete touch
     only the requested (validated) path, or hard links of it. -/
-theorem C26_partial (nfc : Bytes → Bytes) (fu : Nat) (c : Cfg) (fs : FS) (op : Op) (path : Bytes)
+theorem C26_partial (x : Ctx) (nfc : Bytes → Bytes) (fu : Nat) (c : Cfg) (fs : FS) (op : Op) (path : Bytes)
     (hop : op = .download ∨ op = .list ∨ op = .stat ∨ op = .chmod ∨ op = .delete false)
     (hclean : clean path = path) (htr : trailingDir path = false)
     (hdd : NoDD (compsOf path)) (hclr : Clear fs (compsOf path) (compsOf path).length) :
-    ∀ q ∈ (runOp nfc fu c fs op path).touched, touchedOK fs (compsOf path) q := by
+    ∀ q ∈ (runOp x nfc fu c fs op path).touched, touchedOK fs (compsOf path) q := by
   have hcl1 : Clear fs (compsOf path) ((compsOf path).length - 1) := hclr.le (by omega)
   have hst : ∀ {q k}, stat fs fu (compsOf path) = .found q k → q = compsOf path :=
     fun h => (stat_found hdd hclr h).1
   have hls : ∀ {q k}, lstat fs fu (compsOf path) = .found q k → q = compsOf path :=
     fun h => (lstat_found hdd hcl1 h).1
   intro q hq
-  rcases runOp_cases nfc fu c fs op path with ⟨e, he⟩ | ⟨_, hd⟩
+  rcases runOp_cases x nfc fu c fs op path with ⟨e, he⟩ | ⟨_, hd⟩
   · rw [he] at hq; simp [failR] at hq
   · rw [hd] at hq
     rcases hop with rfl | rfl | rfl | rfl | rfl
@@ -210,10 +214,105 @@ theorem C26_partial (nfc : Bytes → Bytes) (fu : Nat) (c : Cfg) (fs : FS) (op :
       | missing par n => exact (opDelete_notfound (fun q0 k h => by rw [hl] at h; cases h) hq).elim
       | err => exact (opDelete_notfound (fun q0 k h => by rw [hl] at h; cases h) hq).elim
 
+/-- the filesystem is a tree (the invariant of MM/Lemmas/C27.lean with the root as "destination") -/
+abbrev Tree (fs : FS) : Prop := Inv [] fs
+
+theorem rootRel (P : Path) : P <+: [] ∨ Under [] P := by
+  by_cases h : P = []
+  · left; rw [h]; exact List.prefix_refl _
+  · right; exact ⟨List.nil_prefix, h⟩
+
+/-- Upload of a file, same hypotheses (and the filesystem is a tree): what changes is the requested
+    path itself (or hard links of it), plus parent directories of it that did not exist yet —
+    prefixes of the requested path.  NOTE: those created ancestors need not lie inside the allowed
+    paths themselves when the allowed path is deeper than the existing tree. -/
+theorem C26_partial_upload (x : Ctx) (nfc : Bytes → Bytes) (fu : Nat) (c : Cfg) (fs : FS) (content : Nat)
+    (path : Bytes) (hT : Tree fs) (hclean : clean path = path)
+    (hdd : NoDD (compsOf path)) (hclr : Clear fs (compsOf path) (compsOf path).length) :
+    ∀ q ∈ (runOp x nfc fu c fs (.upload content) path).touched,
+      q <+: compsOf path ∨
+      touchedOK (mkdirAll fs fu (compsOf path).dropLast).1 (compsOf path) q := by
+  intro q hq
+  rcases runOp_cases x nfc fu c fs (.upload content) path with ⟨e, he⟩ | ⟨_, hd⟩
+  · rw [he] at hq; simp [failR] at hq
+  · rw [hd] at hq
+    unfold dispatch at hq
+    have hcl1 : Clear fs (compsOf path) ((compsOf path).length - 1) := hclr.le (by omega)
+    have hddP := nodd_dropLast hdd
+    have hcP := clear_dropLast' hcl1
+    have ⟨_, hN⟩ := safe_mkdirAll (fu := fu) hT hddP hcP (rootRel _)
+    have hfr := mkdirAll_frame (fu := fu) hT hddP hcP (rootRel _)
+    have hclr1 := hclr.mono hN
+    rcases opUpload_touched hq with h | ⟨q0, i, hs, hal⟩ | ⟨par, n, hs, hqe⟩
+    · rw [hclean] at h
+      left
+      apply Classical.byContradiction
+      intro hnp
+      have hnp' : ¬ q <+: (compsOf path).dropLast := fun hp => hnp (hp.trans (List.dropLast_prefix _))
+      exact changedKeys_mem h (hfr q hnp')
+    · rw [hclean] at hs hal
+      have := (stat_found hdd hclr1 hs).1
+      rw [this] at hal
+      exact Or.inr (aliases_ok hal)
+    · rw [hclean] at hs
+      have := (stat_missing hdd hclr1 hs).1
+      left; rw [hqe, this]; exact List.prefix_refl _
+
+/-- Recursive delete, same hypotheses: everything that disappears lies at or below the requested path. -/
+theorem C26_partial_delete_recursive (x : Ctx) (nfc : Bytes → Bytes) (fu : Nat) (c : Cfg) (fs : FS)
+    (path : Bytes) (hclean : clean path = path)
+    (hdd : NoDD (compsOf path)) (hclr : Clear fs (compsOf path) (compsOf path).length) :
+    ∀ q ∈ (runOp x nfc fu c fs (.delete true) path).touched, compsOf path <+: q := by
+  intro q hq
+  have hcl1 : Clear fs (compsOf path) ((compsOf path).length - 1) := hclr.le (by omega)
+  rcases runOp_cases x nfc fu c fs (.delete true) path with ⟨e, he⟩ | ⟨_, hd⟩
+  · rw [he] at hq; simp [failR] at hq
+  · rw [hd] at hq
+    unfold dispatch at hq
+    cases hl : lstat fs fu (compsOf (clean path)) with
+    | found q0 k =>
+      have hl' := hl
+      rw [hclean] at hl'
+      have ⟨h1, h2, h3⟩ := lstat_found hdd hcl1 hl'
+      have hk : ∀ t, k ≠ .sym t := by
+        intro t hk
+        subst hk
+        have hne : compsOf path ≠ [] := by intro he; cases h3 he
+        have hpos := List.length_pos_iff.mpr hne
+        have := hclr ((compsOf path).length - 1) (by omega) t
+        have hlen : (compsOf path).length - 1 + 1 = (compsOf path).length := by omega
+        rw [hlen, List.take_length] at this
+        exact this (h2 hne)
+      rw [← h1]
+      exact opDeleteRec_touched hl hk hq
+    | missing par n =>
+      unfold opDelete at hq; dsimp only at hq; rw [hl] at hq; simp [failR] at hq
+    | err =>
+      unfold opDelete at hq; dsimp only at hq; rw [hl] at hq; simp [failR] at hq
+
+/-- With a password configured, a request that does not present it touches nothing. -/
+theorem C26_password_required (x : Ctx) (nfc : Bytes → Bytes) (fu : Nat) (c : Cfg) (fs : FS) (op : Op)
+    (path : Bytes) (hh : c.hash ≠ []) (hpw : x.password = [] ∨ x.pwOK c.hash x.password = false) :
+    (runOp x nfc fu c fs op path).touched = [] ∧ (runOp x nfc fu c fs op path).fs = fs := by
+  unfold runOp
+  split
+  · exact ⟨rfl, rfl⟩
+  · have : authenticate x c ≠ none := by
+      unfold authenticate
+      rw [if_neg hh]
+      rcases hpw with h | h
+      · simp [h]
+      · split
+        · simp
+        · simp [h]
+    cases ha : authenticate x c with
+    | none => exact absurd ha this
+    | some e => exact ⟨rfl, rfl⟩
+
 /-! ### non-vacuity -/
 
 /-- "/d" itself: allowed, no symbolic link on it; listing it touches exactly /d. -/
-example : (runOp (fun b => b) 40 wCfg wFS .list [0x2f, 0x64]).touched = [[356]] := by decide
+example : (runOp wCtx (fun b => b) 40 wCfg wFS .list [0x2f, 0x64]).touched = [[356]] := by decide
 example : validatePath (fun b => b) wCfg [0x2f, 0x64, 0x2f, 0x6c, 0x2f, 0x6b] = .ok := by decide
 example : validatePath (fun b => b) wCfg [0x2f, 0x64, 0x64] = .notAllowed := by decide   -- "/dd" is not under "/d"
 example : validatePath (fun b => b) wCfg [0x2f, 0x73, 0x2f, 0x6b] = .notAllowed := by decide   -- "/s/k"
